@@ -90,3 +90,30 @@ Definition spec_pairs (m : bmap) (prefix : option (list byte)) : list (list byte
 
 Definition trie_of_entries (es : list (list byte * value)) : trie :=
   fold_left (fun t e => trie_put t (fst e) (snd e)) es None.
+
+(* ---- audit round: boolean comparisons for the vm_compute cross-check of the extraction ---- *)
+Fixpoint keys_eqb (a b : list (list byte)) : bool :=
+  match a, b with
+  | [], [] => true
+  | x :: a', y :: b' => bytes_eqb x y && keys_eqb a' b'
+  | _, _ => false
+  end.
+Fixpoint pages_eqb (a b : list (list (list byte))) : bool :=
+  match a, b with
+  | [], [] => true
+  | x :: a', y :: b' => keys_eqb x y && pages_eqb a' b'
+  | _, _ => false
+  end.
+Fixpoint pairs_eqb (a : list (list byte * option value)) (b : list (list byte * value)) : bool :=
+  match a, b with
+  | [], [] => true
+  | (k, Some v) :: a', (k', v') :: b' => bytes_eqb k k' && bytes_eqb v v' && pairs_eqb a' b'
+  | _, _ => false
+  end.
+Definition check_paging (t : trie) (p : list byte) (qty : N) (fuel : nat) (obs : list (list (list byte))) : bool :=
+  match paging fuel t p qty [] with Ok (ps, true) => pages_eqb ps obs | _ => false end.
+Definition check_page (t : trie) (p : list byte) (qty : N) (after : option (list byte)) (obs : list (list byte)) : bool :=
+  match keys_paged t p qty (match after with None => [] | Some a => hex0x a end) with
+  | Ok pg => keys_eqb pg obs | _ => false end.
+Definition check_pairs (t : trie) (p : option (list byte)) (obs : list (list byte * value)) : bool :=
+  match pairs t p with Ok l => pairs_eqb l obs | _ => false end.
